@@ -429,6 +429,8 @@ def _sample_nonzero(polys, V, seed, tries=8, pre=(), case=None):
     import random
     rng = random.Random(seed + 991)
     names = P_VARS.names
+    if pre:
+        tries = max(tries, 64)  # sign / range preconditions reject many random points; a rejected try costs one substitution
     for t_ in range(tries):
         point = {}
         vals = {}
